@@ -220,23 +220,30 @@ def item_tokens(item):
     return inner.split(), env
 
 
-def classify(obs, exp, junk):
-    """Tags describing how the observed token lists differ from the expected ones."""
-    tags = []
-    if junk and obs[:len(junk)] == junk and len(obs) >= len(junk) + max(0, len(exp) - 1):
-        tags.append("header-line-as-step")
-        obs = obs[len(junk):]
+def _is_subsequence(xs, ys):
+    it = iter(ys)
+    return all(any(x == y for y in it) for x in xs)
+
+
+def _tail_tag(obs, exp):
     if obs == exp:
-        return tags
+        return []
     if exp and len(obs) == len(exp) and obs[:-1] == exp[:-1] and obs[-1][:len(exp[-1])] == exp[-1]:
-        tags.append("trailer-glued-to-last-step")
-    elif exp and obs == exp[:-1]:
-        tags.append("last-step-missing")
-    elif len(obs) != len(exp):
-        tags.append("step-count")
-    else:
-        tags.append("step-content")
-    return tags
+        return ["trailer-glued-to-last-step"]
+    if exp and obs == exp[:-1]:
+        return ["last-step-missing"]
+    return None
+
+
+def classify(obs, exp, junk):
+    """Tags describing how the observed token lists differ from the expected ones (obs != exp)."""
+    for p in range(min(len(junk), len(obs)), -1, -1):
+        if p and not _is_subsequence(obs[:p], junk):
+            continue
+        t = _tail_tag(obs[p:], exp)
+        if t is not None:
+            return (["header-line-as-step"] if p else []) + t
+    return ["step-count" if len(obs) != len(exp) else "step-content"]
 
 
 def brief(text, head=100, tail=140):
@@ -360,7 +367,8 @@ def check_ff(case):
             if obs != exp:
                 t = classify(obs, exp, junk)
                 r.outcome("plan:steps-" + "+".join(t))
-                rec.fail("steps", f"{n}-step plan: returned steps differ ({', '.join(t)}); {where}",
+                rec.fail("steps", f"{n}-step plan: returned steps differ ({', '.join(t)}); written plan file: "
+                         f"{'none' if content is None else brief(content, 60, 80)}; {where}",
                          around(exp, obs), around(obs, exp), t + tags0)
             elif not all(p[1] for p in parsed):
                 bad = next(it for it, p in zip(items, parsed) if not p[1])
@@ -389,11 +397,14 @@ def check_ff(case):
             if fobs != exp:
                 same = isinstance(got, tuple) and len(got) == 2 and isinstance(got[1], list) and \
                     all(isinstance(x, str) for x in got[1]) and content == "".join(got[1])
-                t = classify(obs, exp, junk) if same and obs is not None else \
-                    ["file-differs-from-returned"] + classify(fobs, exp, junk)
-                r.outcome("plan-file:" + "+".join(t))
-                rec.fail("plan-file", f"{n}-step plan: written plan file differs ({', '.join(t)}); "
-                         f"file={brief(content)}; {where}", around(exp, fobs), around(fobs, exp), t + tags0)
+                if same and obs is not None:
+                    # the file holds exactly the (wrong) returned items: one failure, recorded above
+                    r.outcome("plan-file:same-as-returned:" + "+".join(classify(obs, exp, junk)))
+                else:
+                    t = ["file-differs-from-returned"] + classify(fobs, exp, junk)
+                    r.outcome("plan-file:" + "+".join(t))
+                    rec.fail("plan-file", f"{n}-step plan: written plan file differs ({', '.join(t)}); "
+                             f"file={brief(content)}; {where}", around(exp, fobs), around(fobs, exp), t + tags0)
             elif not all(p[1] for p in fparsed):
                 bad = next(it for it, p in zip(fitems, fparsed) if not p[1])
                 r.outcome("plan-file:envelope")
@@ -558,13 +569,37 @@ def check_enhsp(case):
 
 # ------------------------------------------------------------------------------------------------ known-finding matchers
 
-def _has(tag):
-    return lambda case, fail: tag in fail.get("tags", [])
+DEFECT_TAGS = ["header-line-as-step", "trailer-glued-to-last-step", "last-step-missing", "no-file", "step-count",
+               "step-content", "file-differs-from-returned"]
+
+
+def _defects(fail):
+    return {t for t in fail.get("tags", []) if t in DEFECT_TAGS}
+
+
+def _consistent(case, fail):
+    """Every defect tag of the failure is one the case's header / trailer explains; nothing else is wrong."""
+    d = _defects(fail)
+    if not d or case.get("family") != "ff" or fail.get("clause") not in ("steps", "plan-file"):
+        return False
+    allowed = set()
+    if case["header"] == "digit-colon":
+        allowed.add("header-line-as-step")
+    if case["trailer"] in ("word", "blank-word"):
+        allowed.add("trailer-glued-to-last-step")
+    if case["trailer"] == "unterminated":
+        allowed.add("last-step-missing")
+        if case["n"] == 1:
+            allowed.add("no-file")
+    return d <= allowed
 
 
 MATCHERS = {
-    "trailer_glued": _has("trailer-glued-to-last-step"),
-    "header_line_as_step": _has("header-line-as-step"),
-    "last_step_missing": _has("last-step-missing"),
-    "noplan_file_written": lambda case, fail: fail.get("clause") == "noplan-file",
+    # exactly one defect at work
+    "trailer_glued": lambda c, f: _consistent(c, f) and _defects(f) == {"trailer-glued-to-last-step"},
+    "header_line_as_step": lambda c, f: _consistent(c, f) and _defects(f) == {"header-line-as-step"},
+    "last_step_missing": lambda c, f: _consistent(c, f) and _defects(f) <= {"last-step-missing", "no-file"},
+    # any combination of the three regex-layout defects, each explained by the case's header / trailer
+    "regex_layout": _consistent,
+    "noplan_file_written": lambda c, f: f.get("clause") == "noplan-file" and "stray-digit-colon-lines" in f.get("tags", []),
 }
